@@ -14,6 +14,7 @@
 import RoModel.Machine
 import RoModel.FactPreds
 import RoGen.Catalogue
+import RoGen.BuildTime
 namespace Ro.C12
 open Ro Ro.Facts
 
@@ -41,6 +42,14 @@ theorem hoisted_state_rows :
     (go/extract/closures.go; also method calls on captured fresh objects, delete / clear / copy) -/
 theorem factory_state_rows : RoGen.Catalogue.factoryStateRows = [] := by decide
 
+/-- building a pipeline does nothing: outside its subscribe functions no operator of operator_*.go reads the clock or a
+    random source, or creates a mutex / once / channel / subscription / subject / derived context / atomic (an object every
+    subscription of the observable value would share) — except `Share*`, hot by definition (go/extract/buildtime.go) -/
+theorem buildtime_rows : RoGen.BuildTime.rows.all buildRowOk = true := by decide
+
+/-- non-vacuity: the predicate refuses a deadline computed from the clock when the operator is applied to its source -/
+example : buildRowOk { fn := "ContextWithTimeout", what := "time.Now", scope := "application", file := "operator_context.go", line := 62 } = false := by decide
+
 end Ro.C12
 
 #print axioms Ro.C12.resubscribe_same
@@ -48,3 +57,4 @@ end Ro.C12
 #print axioms Ro.C12.table_ok
 #print axioms Ro.C12.hoisted_state_rows
 #print axioms Ro.C12.factory_state_rows
+#print axioms Ro.C12.buildtime_rows
